@@ -43,7 +43,8 @@ var c12Ops = []c12Op{
 	{ID: "PMulti", Method: "post", Path: "/multi", Bodies: []string{"application/json", "application/x-www-form-urlencoded", "text/plain"},
 		Resps: []c12Resp{{Code: "200", Media: []string{"application/json", "text/plain"}}, {Code: "400", Media: []string{"application/problem+json"}}}},
 	{ID: "PVendor", Method: "put", Path: "/vendor", Bodies: []string{"application/merge-patch+json"},
-		Resps: []c12Resp{{Code: "200", Media: []string{"application/json"}}, {Code: "5XX", Media: []string{"application/json"}}}},
+		Resps: []c12Resp{{Code: "200", Media: []string{"application/json"}}, {Code: "5XX", Media: []string{"application/json"}},
+			{Code: "203", Media: []string{"application/*+json"}}, {Code: "409", Ref: "Wild", Media: []string{"application/*+json"}}}},
 	{ID: "PRaw", Method: "post", Path: "/raw", Bodies: []string{"application/octet-stream"},
 		Resps: []c12Resp{{Code: "200", Media: []string{"image/*"}}, {Code: "default"}}},
 	// multipart bodies: form-data goes through the framework's own reader, any other multipart/* through a
@@ -92,7 +93,7 @@ func c12Doc() J {
 		paths[o.Path] = J{o.Method: op}
 	}
 	return J{"openapi": "3.0.3", "info": J{"title": "t", "version": "1"}, "paths": paths,
-		"components": J{"schemas": J{"Payload": c12Payload}, "responses": J{"NotFound": c12RespJ(c12Resp{Media: []string{"application/json"}})}}}
+		"components": J{"schemas": J{"Payload": c12Payload}, "responses": J{"NotFound": c12RespJ(c12Resp{Media: []string{"application/json"}}), "Wild": c12RespJ(c12Resp{Media: []string{"application/*+json"}})}}}
 }
 
 func c12RespJ(r c12Resp) J {
@@ -667,6 +668,11 @@ func c12CheckRequest(o c12Op, media, sent string, ro map[string]interface{}) str
 		}
 	case strings.HasPrefix(media, "multipart/"):
 		gm, _ := got.(map[string]interface{})
+		// parts are compared as a set: fasthttp pre-parses a form-data body into a map and re-marshals it, so the order of
+		// parts with different names is the framework's, not the generated code's
+		if ps, ok := gm["$multipart"].([]interface{}); ok {
+			sort.SliceStable(ps, func(i, j int) bool { return Canon(ps[i]) > Canon(ps[j]) })
+		}
 		if want := `[{"data":"x y","name":"a"},{"data":"5","name":"n"}]`; gm == nil || Canon(gm["$multipart"]) != want {
 			return fmt.Sprintf("%s parts a=\"x y\", n=5 arrive as %s", media, Canon(got))
 		}
